@@ -1,5 +1,5 @@
 (** One entry point for the extracted model runner: component number, numbers in, numbers out. *)
-From Remoc Require Import Lib.Base Run.RunCodec Run.RunRobsVec Run.RunRobsDeque Run.RunRobsList Run.RunRobsMap Run.RunRobsSet Run.RunPort Run.RunBroadcast Run.RunIoChan Run.RunEndpoint Run.RunHandle Run.RunLazy Run.RunRwLock Run.RunWatch.
+From Remoc Require Import Lib.Base Run.RunCodec Run.RunRobsVec Run.RunRobsDeque Run.RunRobsList Run.RunRobsMap Run.RunRobsSet Run.RunPort Run.RunBroadcast Run.RunIoChan Run.RunEndpoint Run.RunHandle Run.RunLazy Run.RunRwLock Run.RunWatch Run.RunRobsLag.
 
 Definition run (comp : N) (inp : list N) : list N :=
   match comp with
@@ -12,6 +12,7 @@ Definition run (comp : N) (inp : list N) : list N :=
   | 133 => run_robs_list inp
   | 134 => run_robs_map inp
   | 135 => run_robs_set inp
+  | 14 => run_robs_lag inp
   | 16 => run_broadcast inp
   | 18 => run_io inp
   | 20 => run_handle inp
